@@ -809,7 +809,7 @@ package psatoken
 // ---------------------------------------------------------------- custom CBOR (un)marshalers
 
 //@ func (*P1Claims).UnmarshalCBOR
-//@   property C04 C09 C07 C05 C18 C16
+//@   property C04 C09 C07 C05 C18 C16 C10
 //@   requires c != nil && emptyDest(c.SwComponents) && dm != nil
 //@   ensures[ok] (ret == nil) == cborDecP1OK(bytesVal(buf), withField(old(*c), "Profile", nil))
 //@   ensures[value] ret == nil ==> *c == cborDecP1(bytesVal(buf), withField(old(*c), "Profile", nil))
@@ -819,7 +819,7 @@ package psatoken
 //@   modifies *c, *c.Profile, *c.ClientID, *c.SecurityLifeCycle, *c.ImplID, *c.BootSeed, *c.CertificationReference, *c.NoSwMeasurements, *c.Nonce, *c.InstID, *c.VSI, c.SwComponents.(*SwComponents[*SwComponent]).values
 
 //@ func (*P2Claims).UnmarshalCBOR
-//@   property C04 C09 C07 C05 C18 C16
+//@   property C04 C09 C07 C05 C18 C16 C10
 //@   requires c != nil && emptyDest(c.SwComponents) && dm != nil
 //@   ensures[ok] (ret == nil) == cborDecP2OK(bytesVal(buf), withField(old(*c), "Profile", nil))
 //@   ensures[value] ret == nil ==> *c == cborDecP2(bytesVal(buf), withField(old(*c), "Profile", nil))
